@@ -155,6 +155,7 @@ impl Property for C06 {
         let mut cfg = InstCfg::new(regime);
         cfg.tolerance_candidates = true;
         cfg.fixed_out_of_bound = true;
+        cfg.kinds.extend([4, 5]); // semi-integer, semi-continuous: every kind of the schema
         // a present function message whose oneof is unset evaluates to zero (C01) -- for every sample alike
         cfg.func.allow_unset = true;
         let mut gi = gen_instance(t, &cfg, ctx);
